@@ -699,7 +699,7 @@ func byteCompareGroups(f *ssa.Function) map[ssa.Value]map[*ssa.BasicBlock][]int6
 type g5spec struct{ rel, fn string }
 
 func rulesLineTerminators(c *Ctx, r *Report, prop string) {
-	rulesG5Bytes(c, r, []g5spec{{"formats/fasta", "(*reader).read"}, {"formats/newick", "(*reader).nextToken"}}, 5, "terminator comparison groups (4 states in fasta.read, 1 case list in newick.nextToken)")
+	rulesG5Bytes(c, r, []g5spec{{"formats/fasta", "role:fasta.read"}, {"formats/newick", "role:newick.nextToken"}}, 5, "terminator comparison groups (4 states in fasta.read, 1 case list in newick.nextToken)")
 	rulesG5Lines(c, r)
 }
 
@@ -708,6 +708,9 @@ func rulesG5Bytes(c *Ctx, r *Report, specs []g5spec, floor int, note string) {
 	nGroups := 0
 	for _, spec := range specs {
 		f := c.fn(spec.rel, spec.fn)
+		if strings.HasPrefix(spec.fn, "role:") {
+			f = c.role(strings.TrimPrefix(spec.fn, "role:"))
+		}
 		where := spec.rel + "." + spec.fn
 		if f == nil {
 			r.undecided("G5", where, "anchor", "", "decoder function not found")
